@@ -213,3 +213,27 @@ def tight_window_program(rng):
                       'xs': [_d.lit('bin', src)], 'drop': ['*']})
         calls.append({'op': 'len', 't': 'a'})
     return {'calls': calls}
+
+
+def large_source_window_program(rng):
+    """short and long windows over byte sources larger than 4096 bytes (past any size threshold a window
+    routine might switch on), from aligned and unaligned offsets anywhere in the source, whole-byte and odd lengths"""
+    calls = []
+    nbytes = rng.choice([4096, 4097, 4100, 5000, 8192, 8193])
+    nbits = 8 * nbytes
+    src = _d.rand_bits(rng, nbits)
+    for _ in range(rng.randint(2, 4)):
+        kind = rng.choice(SOURCES)
+        off = rng.choice([rng.randint(0, 40), rng.randint(0, nbits), 8 * rng.randint(0, nbytes), nbits - rng.randint(0, 70)])
+        room = nbits - off
+        ln = rng.choice([8 * rng.randint(0, 12), rng.randint(0, 100), room, room - rng.randint(0, 16), room - 8 * rng.randint(0, 3),
+                         room + rng.choice([1, 7, 8])])
+        ln = max(0, ln)
+        if ln > 40000 or rng.random() < 0.1:
+            ln = NONE_I if rng.random() < 0.5 else min(ln, 8 * rng.randint(1, 40))
+        cls = rng.choice(_d.CLASSES)
+        calls.append({'op': 'mkwin', 'rid': 'a', 'sa': [cls, kind], 'ia': [off, ln, NONE_I],
+                      'xs': [_d.lit('bin', src)], 'drop': ['*']})
+        calls.append({'op': 'len', 't': 'a'})
+        calls.append({'op': 'tobytes', 't': 'a', 'sa': ['tobytes']})
+    return {'calls': calls}
